@@ -100,6 +100,7 @@ type FuncVC struct {
 	namedOnce map[string]bool
 	freshRefs map[string]bool
 	implFacts []Term
+	lastLess  string
 }
 
 type axiomT struct {
@@ -786,6 +787,11 @@ type localRef struct {
 }
 
 func (vc *FuncVC) localNames(fn *ssa.Function, at *ssa.BasicBlock) map[string]localRef {
+	return vc.localNamesAt(fn, at, nil)
+}
+
+// localNamesAt: names visible just before instruction upto of block at (upto == nil: at the start of the block).
+func (vc *FuncVC) localNamesAt(fn *ssa.Function, at *ssa.BasicBlock, upto ssa.Instruction) map[string]localRef {
 	out := map[string]localRef{}
 	// free variables (captured): pointers to the variables of the enclosing function
 	for _, fv := range fn.FreeVars {
@@ -800,8 +806,12 @@ func (vc *FuncVC) localNames(fn *ssa.Function, at *ssa.BasicBlock) map[string]lo
 		b := chain[i]
 		for _, in := range b.Instrs {
 			if b == at {
-				// in the header only phis are visible
-				if _, ok := in.(*ssa.Phi); !ok {
+				if upto != nil {
+					if in == upto {
+						break
+					}
+				} else if _, ok := in.(*ssa.Phi); !ok {
+					// at the start of the block only phis are visible
 					if _, ok := in.(*ssa.DebugRef); !ok {
 						break
 					}
@@ -863,6 +873,18 @@ func wrap(x Term, t types.Type) Term {
 	}
 	h := pow2(bits - 1)
 	return Sub(mk(SInt, "mod", Add(x, h), m), h)
+}
+
+// wrap1 is wrap for the result of ONE addition or subtraction of two in-range operands: the mathematical result is
+// off by at most one modulus, so a case split replaces the (much slower) mod term. Exact under the type invariant.
+func wrap1(x Term, t types.Type) Term {
+	bits, signed := typeBits(t)
+	m := pow2(bits)
+	if !signed {
+		return Ite(Lt(x, IntLit(0)), Add(x, m), Ite(Ge(x, m), Sub(x, m), x))
+	}
+	h := pow2(bits - 1)
+	return Ite(Ge(x, h), Sub(x, m), Ite(Lt(x, mk(SInt, "-", h)), Add(x, m), x))
 }
 
 func isInteger(t types.Type) bool {
